@@ -84,13 +84,14 @@ PROPS = {
                 partial=["the 30 s rule is exercised for real only in the thorough tier (one 31 s scenario); in the quick tier it rests on the theorem, the regenerated constant Gen.streamRequestPeriodNs and the source pins"]),
     "C17": dict(lean=["Mav.Props.C17"], groups=[("C17", sizes(1, 1))], table_crosscheck=True, preamble=dialects_preamble,
                 trusted=["published CRC_EXTRA values: the 138-entry table Spec.publishedCrcExtra (common.xml) written down by hand from the published values, plus the spec recipe for the rest"]),
-    "C18": dict(lean=["Mav.Props.C18"], groups=[("C18", sizes(60, 1500))],
+    "C18": dict(lean=["Mav.Props.C18", "Mav.Props.C18b"], groups=[("C18", sizes(60, 1500))],
                 trusted=["encoding/xml, text/template and the Go compiler: the generated package is compiled and its behaviour observed (CRC_EXTRA, sizes, wire order through the VerifLayout hook, constants, dialect version); the abstract definition is rendered to XML by the harness",
                          "the domain is dialect sets following the MAVLink naming rules: message names [A-Z][A-Z0-9_]*, field names that are identifiers, array lengths 1..255 without leading zeros, payload of at most 255 bytes, enum values below 2^64, enum-typed fields of an integer type"],
-                partial=["universal theorems cover message-name recovery, field-name recovery (mavname), the type table and array syntax, a**b evaluation and once-only processing of included files; the equality of the generator model and the XML-level specification on whole dialect sets is decided by differential runs (random grammar-based sets incl. diamonds, odd names, all value syntaxes), not proved"]),
-    "C19": dict(lean=["Mav.Props.C19"], groups=[("C19", sizes(1, 1))], preamble=enums_preamble,
+                partial=["proved end to end for messages (generated_message_has_the_spec_layout: every valid abstract message definition, rendered to XML text, generated, accepted by the run-time model, has the order / sizes / CRC_EXTRA the guide assigns to the definition), for message and field names, decimal and a**b enum values and once-only processing of included files; hexadecimal / binary values, the dialect version, the merge of enums across files, the enum text template and the textual XML parser of the specification are decided by differential runs on compiled generated code (random grammar-based sets incl. diamonds, odd names, all value syntaxes), not proved"]),
+    "C19": dict(lean=["Mav.Props.C19"], groups=[("C19", sizes(1, 1)), ("C19gen", sizes(20, 300))], preamble=enums_preamble,
                 trusted=["strconv.Itoa/Atoi and strings.Split/Join modelled (Mav/Model/EnumText.lean); validated by TIE-D on every enum type",
-                         "enum tables regenerated from the source text; the harness registry of enum types is generated from the same extraction"]),
+                         "enum tables regenerated from the source text; the harness registry of enum types is generated from the same extraction",
+                         "generated dialects: the enum template is exercised by converting enum-heavy dialect sets (bitmask enums with groups of flags, extended enums, large values), compiling them and probing MarshalText / UnmarshalText of every constant and of unions of constants (group C19gen)"]),
     "C20": dict(lean=["Mav.Props.C20"], groups=[("C20", sizes(60, 1500))],
                 trusted=["time.Time modelled as (seconds, nanoseconds) with Go's time.Unix normalisation and UnixMicro made explicit (Mav/Model/Tlog.lean); validated by TIE-D on epochs around 1970 and at the int64 extremes"]),
     "C09": dict(lean=["Mav.Props.C09"], groups=[("C09", sizes(100, 600))],
